@@ -37,6 +37,14 @@ impl ReplSim {
         Ok(ReplSim { sim, repl, shadow: vec![BTreeMap::new(); workers], heap: HeapFacts::default() })
     }
 
+    /// Start a new session (a new `Repl`) on the same environment, as the CLI does after a
+    /// runtime error; the environment keeps everything the earlier session merged.
+    pub fn restart(&mut self, modules: &Modules, reg: &Registry) -> Result<(), String> {
+        let resolver = Box::new(PackageResolver::memory(modules.clone()));
+        self.repl = Repl::new(&mut self.sim.env, resolver, reg.clone()).map_err(|e| format!("Repl::new: {e}"))?;
+        Ok(())
+    }
+
     /// Drive the simulator until `done` yields a value; heap invariants run after every worker step.
     fn drive<T>(&mut self, mut done: impl FnMut(&mut Sim) -> Option<T>) -> Result<T, String> {
         let mut out: Option<T> = None;
